@@ -1,7 +1,8 @@
 """C18 -- see DESIGN.md section 5.  Deductive targets are added below the bounded import."""
 PROP = "C18"
-LEVEL = "other"
-EXPLANATION = 'bounded stand-in: exhaustive answer-script trees on real questions under read/write budgets'
+LEVEL = 'proof'
+EXPLANATION = ('Deductive: the retry loop of Question._validate_attempts is verified with an opaque interviewer/validator model and ghost counters: every invalid entry consumes exactly one attempt and prints exactly one error (the last error is raised, not printed), a limited question fails after exactly the configured number of entries, and the loop terminates -- its measure is the number of lines left on the input, so a question with unlimited attempts gives up at end of input.  Bounded: exhaustive answer-script trees on real choice / confirmation questions under read and write budgets (membership, index/value interchange, multi-select, non-interactive).')
+LEVEL_NOTE = ('assumes: the interviewer consumes exactly one input line per call or aborts with RuntimeError when none is left; validators are arbitrary; SelectChoiceValidator.validate and the confirmation normaliser are bounded only')
 from pyvc.contracts import REG as R
 from . import question_contracts as qc
 R.opaque_hook = qc.opaque_question
